@@ -206,11 +206,16 @@ def tlc(ctx, module, cfg, specdir=None, workers=None, timeout=600, simulate=None
     wd = ctx.sub("tlc-" + tag)
     for f in os.listdir(specdir):
         if f.endswith(".tla") or f.endswith(".cfg"):
-            shutil.copy(os.path.join(specdir, f), wd)
+            try:
+                shutil.copy(os.path.join(specdir, f), wd)
+            except FileNotFoundError:
+                pass            # a generated cfg of a concurrent run that has just been removed
     for src, dst in (files or {}).items():
         shutil.copy(src, os.path.join(wd, dst))
     meta = os.path.join(wd, "meta")
-    java = ["java", "-XX:+UseParallelGC", "-Xss64m"]
+    jtmp = os.path.join(wd, "jtmp")
+    os.makedirs(jtmp, exist_ok=True)
+    java = ["java", "-XX:+UseParallelGC", "-Xss64m", "-Djava.io.tmpdir=" + jtmp]
     if (workers or NCPU) <= 2:
         java.append("-XX:ParallelGCThreads=2")
     # default heap caps: several TLC JVMs run in parallel (and other checks may run on the
@@ -259,6 +264,7 @@ def tlc(ctx, module, cfg, specdir=None, workers=None, timeout=600, simulate=None
     open(os.path.join(wd, "tlc.out"), "w").write(res.out)
     res.dir = wd
     shutil.rmtree(meta, ignore_errors=True)
+    shutil.rmtree(jtmp, ignore_errors=True)
     return res
 
 
